@@ -434,6 +434,72 @@ fn main() {
             }
             if bad.is_empty() { println!("OK kleene {what} {wher}: {count} runs agree") } else { println!("REPRODUCED kleene {what} {wher}: {}", bad.join("; ")); std::process::exit(1) }
         }
+        "seqfull" => {
+            // C02: SaseEngine::process against an independent earliest-continuation reference.  Patterns SEQ of 2..3 steps over types {S, X, Y}
+            // with an optional constant filter on one step and an optional cross-alias filter, optionally partitioned by `k`; every stream of
+            // <= 5 events over a 7-event alphabet.  Reference: every event that satisfies step 1 begins one candidate; it takes, at every further
+            // step, the earliest later event (of its partition) that satisfies that step; it is reported iff it completes.
+            use varpulis_runtime::sase::{CompareOp, Predicate, SaseEngine, SasePattern};
+            let alphabet: Vec<Event> = vec![
+                Event::new("S").with_field("x", Value::Int(1)).with_field("k", Value::Int(1)), Event::new("S").with_field("x", Value::Int(2)).with_field("k", Value::Int(2)),
+                Event::new("X").with_field("x", Value::Int(1)).with_field("k", Value::Int(1)), Event::new("X").with_field("x", Value::Int(2)).with_field("k", Value::Int(2)),
+                Event::new("X").with_field("x", Value::Int(2)).with_field("k", Value::Int(1)), Event::new("Y").with_field("x", Value::Int(1)).with_field("k", Value::Int(1)),
+                Event::new("Y").with_field("x", Value::Int(2)).with_field("k", Value::Int(2))];
+            #[derive(Clone)] struct Step { ty: &'static str, lit: Option<i64>, refs: bool }
+            let xi = |e: &Event| e.get("x").and_then(|v| v.as_int());
+            let shapes: Vec<(&str, Vec<Step>)> = vec![
+                ("S X", vec![Step { ty: "S", lit: None, refs: false }, Step { ty: "X", lit: None, refs: false }]),
+                ("S X[x==2]", vec![Step { ty: "S", lit: None, refs: false }, Step { ty: "X", lit: Some(2), refs: false }]),
+                ("S[x==1] X", vec![Step { ty: "S", lit: Some(1), refs: false }, Step { ty: "X", lit: None, refs: false }]),
+                ("S X[x==s.x]", vec![Step { ty: "S", lit: None, refs: false }, Step { ty: "X", lit: None, refs: true }]),
+                ("S X Y", vec![Step { ty: "S", lit: None, refs: false }, Step { ty: "X", lit: None, refs: false }, Step { ty: "Y", lit: None, refs: false }]),
+                ("S X[x==s.x] Y", vec![Step { ty: "S", lit: None, refs: false }, Step { ty: "X", lit: None, refs: true }, Step { ty: "Y", lit: None, refs: false }]),
+                ("S S", vec![Step { ty: "S", lit: None, refs: false }, Step { ty: "S", lit: None, refs: false }]),
+                ("X X X", vec![Step { ty: "X", lit: None, refs: false }, Step { ty: "X", lit: None, refs: false }, Step { ty: "X", lit: None, refs: false }])];
+            let mut bad: Vec<String> = Vec::new(); let mut count = 0usize; let mut matches = 0usize;
+            let n = alphabet.len();
+            for (name, steps) in &shapes {
+                for partitioned in [false, true] {
+                    for len in 1..=5u32 {
+                        for sid in 0..n.pow(len) {
+                            let mut x = sid; let mut stream: Vec<Event> = Vec::new();
+                            for i in 0..len { let mut e = alphabet[x % n].clone(); x /= n; e = e.with_field("i", Value::Int(i as i64)); stream.push(e) }
+                            let pat: Vec<SasePattern> = steps.iter().enumerate().map(|(j, st)| {
+                                let pred = if let Some(l) = st.lit { Some(Predicate::Compare { field: "x".into(), op: CompareOp::Eq, value: Value::Int(l) }) }
+                                           else if st.refs { Some(Predicate::CompareRef { field: "x".into(), op: CompareOp::Eq, ref_alias: "a0".into(), ref_field: "x".into() }) } else { None };
+                                SasePattern::Event { event_type: st.ty.into(), predicate: pred, alias: Some(format!("a{j}")) } }).collect();
+                            let mut eng = SaseEngine::new(if pat.len() == 1 { pat[0].clone() } else { SasePattern::Seq(pat) });
+                            if partitioned { eng = eng.with_partition_by("k".to_string()) }
+                            let mut got: Vec<Vec<i64>> = Vec::new();
+                            for e in &stream { for m in eng.process(e) { got.push(m.stack.iter().map(|s| s.event.get("i").and_then(|v| v.as_int()).unwrap_or(-1)).collect()) } }
+                            // reference
+                            let mut want: Vec<Vec<i64>> = Vec::new();
+                            let ok = |st: &Step, e: &Event, first: Option<&Event>| -> bool {
+                                *e.event_type == *st.ty && st.lit.map_or(true, |l| xi(e) == Some(l)) && (!st.refs || first.map_or(false, |f| xi(e).is_some() && xi(e) == xi(f))) };
+                            for (i, e0) in stream.iter().enumerate() {
+                                if !ok(&steps[0], e0, None) { continue }
+                                let mut idx = vec![i as i64]; let mut pos = i + 1; let mut done = true;
+                                for st in &steps[1..] {
+                                    let mut found = None;
+                                    for (j, e) in stream.iter().enumerate().skip(pos) {
+                                        if partitioned && e.get("k") != e0.get("k") { continue }
+                                        if ok(st, e, Some(e0)) { found = Some(j); break }
+                                    }
+                                    match found { Some(j) => { idx.push(j as i64); pos = j + 1 } None => { done = false; break } }
+                                }
+                                if done { want.push(idx) }
+                            }
+                            count += 1; matches += want.len();
+                            got.sort(); want.sort();
+                            if got != want && bad.len() < 3 {
+                                bad.push(format!("pattern {name}{} on {:?}: engine reports matches {:?} (event positions), earliest-continuation reference {:?}", if partitioned { " partitioned by k" } else { "" },
+                                    stream.iter().map(|e| format!("{}(x={:?},k={:?})", e.event_type, xi(e), e.get("k").and_then(|v| v.as_int()))).collect::<Vec<_>>(), got, want)) }
+                        }
+                    }
+                }
+            }
+            if bad.is_empty() { println!("OK seqfull: {count} pattern/stream pairs, {matches} reference matches, all reported exactly") } else { println!("REPRODUCED seqfull: {}", bad.join("; ")); std::process::exit(1) }
+        }
         "seqstep" => {
             // bounded probe of "every reported match is a genuine occurrence" through SaseEngine::process: SEQ(S as s, X [filter] as t) and
             // SEQ(S as s, X [filter] as t, Y as u) over every stream of 4 events from a 6-event alphabet; every reported match is checked against
